@@ -207,6 +207,35 @@ def run(tier, seed, build, res):
         return c03.glued(c, d, allt, set(d.accented))
     universe.run(g, res, 'parser', project, glue_oracle)
     after_construct_stream(rng, res, tier)
+    theorem_stream(res)
+
+
+def theorem_stream(res):
+    """theorem-like environments declared by the document: a single line
+    break between \\begin{thm}, its optional title and the text is no
+    paragraph break; a blank line is one"""
+    cases = []
+    for opt in ('', '[Name]', '[A title with words]'):
+        for sep, want in (('\n', 0), (' ', 0), ('', 0), ('\n\n', 1), (' \n', 0), ('\n  ', 0),
+                          ('% c\n', 0)):
+            tex = ('\\newtheorem{thm}{Theorem}\nIntro words.\n\n\\begin{thm}' + opt + sep
+                   + 'Wtext follows here.\n\\end{thm}\n\nLast words.\n')
+            cases.append((parsecase.T2T(tex, lang='en', pack='*', files={}), want, 'theorem'))
+
+    def oracle(c, want, kind, im):
+        if im[0] != 'OK':
+            return None
+        txt = im[1][1]
+        a = txt.find('Theorem')
+        b = txt.find('Wtext')
+        if a < 0 or b < 0:
+            return 'theorem heading or text lost: %r' % txt
+        got = len(re.findall(r'\n[ \t]*\n', txt[a:b]))
+        if (got > 0) != (want > 0):
+            return ('%d paragraph break(s) between the theorem heading and its text, '
+                    'the source has %d: %r' % (got, want, txt[a:b + 5]))
+        return None
+    universe.run(cases, res, 'theorem', project, oracle)
 
 
 def after_construct_stream(rng, res, tier):
